@@ -169,6 +169,13 @@ def run_case(cls, params, rec):
 		m = n + delta
 		args[j] = make_args(max(m, 0), k)[j] if m > 0 else args[j][:0]
 	nontriv = (n % b != 0) or b > n or k > 0
+	# the same values in another memory layout (non-contiguous, storage
+	# offset, strided); the surrounding storage is watched as well
+	params, X, xbase = gen.apply_layout(params, rec, X)
+	bases = {"Xbase": xbase}
+	for j in range(len(args)):
+		_, args[j], bases["argbase%d" % j] = gen.apply_layout(params, rec,
+			args[j], "arg", j)
 
 	if kind == "bn":
 		model = BNModel(params.get("mseed", 0))
@@ -186,7 +193,9 @@ def run_case(cls, params, rec):
 		rec.setadd("bn_model_start_states", state)
 		torch.set_grad_enabled(True)
 		Xf = X.type(torch.float64)
-		mon = gen.Immutable(X=Xf, **{"arg%d" % j: a for j, a in
+		if Xf is not X:
+			Xf, bases["Xbase"] = gen.relayout(Xf, params["layout"])
+		mon = gen.Immutable(X=Xf, **bases, **{"arg%d" % j: a for j, a in
 			enumerate(args)})
 		sd = {kk: v.clone() for kk, v in model.state_dict().items()}
 		st, y = gen.call(predict, model, Xf, args=tuple(args) if k else None,
@@ -227,7 +236,8 @@ def run_case(cls, params, rec):
 	if params.get("oom_limit"):
 		model.oom_limit = params["oom_limit"]
 	model.train()
-	mon = gen.Immutable(X=X, **{"arg%d" % j: a for j, a in enumerate(args)})
+	mon = gen.Immutable(X=X, **bases, **{"arg%d" % j: a for j, a in
+		enumerate(args)})
 	argv = None if k == 0 else (tuple(args) if params.get("args_tuple", True)
 		else list(args))
 	st, y = gen.call(predict, model, X, args=argv, batch_size=b, device="cpu")
